@@ -418,6 +418,16 @@ class Verifier(Interp):
         for p, d in zip(a.kwonlyargs, a.kw_defaults):
             if d is not None:
                 defaults[p.arg] = d
+        # A setup describes a CALL.  Keyword arguments it collects under the function's `**kwargs` name are bound as CPython binds
+        # them: to an explicit parameter of that name where the (possibly changed) signature has one, else they stay in the dict.
+        kwd = params.get(a.kwarg.arg) if a.kwarg else None
+        if isinstance(kwd, PDict) and kwd.items is not None:
+            moved = [nm for nm in names if nm not in params and nm in kwd.items]
+            if moved:
+                params = dict(params)
+                params[a.kwarg.arg] = PDict({k: v for k, v in kwd.items.items() if k not in moved})
+                for nm in moved:
+                    params[nm] = kwd.items[nm]
         for nm in names:
             if nm in params:
                 fr.vars[nm] = params[nm]
